@@ -34,6 +34,7 @@ class TW(object):
         self.hops = {}
         self.hop_frames = {}
         self.hop_abandon = {}
+        self.hop_named = {}
 
     async def block(self, bid):
         # blocking point of a task in a nursery body / at top level
@@ -71,7 +72,7 @@ class TW(object):
         trio = self.trio
         self.hop_frames.setdefault(key, []).append(sys._getframe(0))
         if depth > 0:
-            return await trio.to_thread.run_sync(self.sync_fn, depth - 1, key, abandon_on_cancel=self.next_abandon(key))
+            return await trio.to_thread.run_sync(self.sync_fn, depth - 1, key, abandon_on_cancel=self.next_abandon(key), thread_name=self.thread_name_of(key))
         t = trio.lowlevel.current_task()
         self.info.setdefault(t, {})["blocks"] = ("body", -1)
         self.parked += 1
@@ -99,7 +100,7 @@ class TW(object):
         self.ctx.stat("to_thread_builtin_callable")
         await self.trio.to_thread.run_sync(lock.acquire)
 
-    async def hop(self, depth, key, flags=()):
+    async def hop(self, depth, key, flags=(), named=False):
         """to_thread/from_thread ping-pong of the given alternation depth, ending parked."""
         self.expected_parked += 1
         # the same task function may run in several sibling tasks: one chain per task
@@ -111,9 +112,16 @@ class TW(object):
         # flags: whether each to_thread.run_sync of the chain may abandon its thread on cancellation
         # (a re-entrant from_thread.run is then served by a system task instead of the waiting task)
         self.hop_abandon[key] = list(flags)
+        self.hop_named[key] = named
+        if named:
+            self.ctx.stat("explicit_shared_thread_name")
         if any(self.hop_abandon[key][: (depth + 1) // 2]):
             self.ctx.stat("reentrant_call_served_by_system_task")
-        await self.trio.to_thread.run_sync(self.sync_fn, depth, key, abandon_on_cancel=self.next_abandon(key))
+        await self.trio.to_thread.run_sync(self.sync_fn, depth, key, abandon_on_cancel=self.next_abandon(key), thread_name=self.thread_name_of(key))
+
+    def thread_name_of(self, key):
+        # some chains name their worker threads themselves, all with the same (interned) name
+        return "vsim-pool" if self.hop_named.get(key) else None
 
     def next_abandon(self, key):
         flags = self.hop_abandon.get(key)
@@ -157,7 +165,7 @@ class TrioGen(object):
                 # program runs, worker and foreign threads wake the Trio loop at times of their own,
                 # so the order in which tasks would draw from the tape is not reproducible
                 flags = tuple(t.choose(3) == 2 for _ in range(hd // 2 + 1))
-                body.append("    await W.hop(%d, %d, %r)" % (hd, self.id(), flags))
+                body.append("    await W.hop(%d, %d, %r, %r)" % (hd, self.id(), flags, t.choose(3) == 2))
             self.lines.extend(["async def %s(W):" % name] + body + [""])
             return name
         # nested nurseries
